@@ -29,7 +29,7 @@ ASSUMPTIONS = [
     "file-system calls are serialised by the coordinator: races inside one call's kernel execution are not explored",
 ]
 SHARDS = {"quick": 12, "thorough": 14}
-FLOORS = {"quick": {"schedules": 200, "distinct_schedules": 150, "cached_calls_observed": 1200, "preemption_points": 8},
+FLOORS = {"quick": {"schedules": 200, "distinct_schedules": 150, "cached_calls_observed": 800, "preemption_points": 8},
           "thorough": {"schedules": 5000, "distinct_schedules": 3500, "cached_calls_observed": 30000, "preemption_points": 12}}
 PART = os.path.join(harness.VERIF, "checks", "c11_part.py")
 
